@@ -395,7 +395,7 @@ def run_cases(ctx, res, cfgs, scripts_for, build_tag_prefix="pm", per_case=False
                     continue
                 t1 = time.time()
                 rc1, o1, e1 = ctx.run_bin(bins[c.tag], "\n".join(lines) + "\n", timeout=900, cpu=15)
-                if rc1 != 0:
+                if rc1 != 0 and time.time() - t1 > 5:      # only slow deaths count (hangs, exhausted memory): recorded crashes die at once
                     lost += time.time() - t1
                 if rc1 != 0:
                     crashed[name] = (rc1, (e1 or o1)[-300:])
